@@ -13,7 +13,7 @@
       [ack_ranges_ok]           descending, Smallest <= Largest, disjoint and non-adjacent
       [pending tr]              receive time of the first accepted, still unacknowledged ack-eliciting app-data packet *)
 From Coq Require Import List ZArith Bool.
-From V Require Import Gen.Params RecvPH.Model RecvPH.ProofsHist RecvPH.ProofsAck RecvPH.ProofsDue RecvPH.ProofsDup RecvPH.ProofsMissing.
+From V Require Import Gen.Params RecvPH.Model RecvPH.ProofsHist RecvPH.ProofsAck RecvPH.ProofsDue RecvPH.ProofsDup RecvPH.ProofsMissing RecvPH.ProofsNonempty.
 Import ListNotations.
 Open Scope Z_scope.
 
@@ -64,13 +64,34 @@ Theorem C07_forget : forall (ops : list op) p r now only f,
 Proof. exact forget. Qed.
 Print Assumptions C07_forget.
 
-(** REFUTED at the API of the handler: "a generated ACK always has a range". *)
-Theorem C07_ack_nonempty_refuted :
+(** (a) A generated ACK frame has at least one range and passes validateAckRanges.
+    For Initial/Handshake unconditionally. For the application data space under the CALLER
+    DISCIPLINE of connection.go, the only hypothesis: at the moment GetAckFrame is called, the
+    last IgnorePacketsBelow call has been followed by an accepted application-data packet
+    ([owes trace = false]). connection.go guarantees it: IgnorePacketsBelow is only reached from
+    handleFrames of a 1-RTT packet (handleAckFrame -> ReceivedAck -> ignorePacketsBelow), and that
+    very packet is registered by ReceivedPacket right after handleFrames, before any packet is
+    packed; if ReceivedPacket or handleFrames fails the connection closes and packs only a
+    CONNECTION_CLOSE, which requests no ACK frame (see notes/C07.md). *)
+Theorem C07_ack_nonempty : forall (ops : list op) lvl now only f,
+  let h := fst (run newHandler ops) in
+  (lvl = rph_Enc1RTT -> owes (trace newHandler ops) = false) ->
+  snd (h_get_ack h lvl now only) = Some f ->
+  aRanges f <> [] /\ validateAckRanges (aRanges f) = true.
+Proof. exact ack_nonempty. Qed.
+Print Assumptions C07_ack_nonempty.
+
+(** The hypothesis cannot be dropped: a handler driven outside the discipline (forget threshold
+    above everything received, ACK requested before any packet is registered) hands out a frame
+    without ranges. No endpoint performs this call sequence; the witness is replayed on the
+    implementation for information only (INFO line of unit recvph). *)
+Theorem C07_ack_nonempty_needs_discipline :
   exists ops now f,
+    owes (trace newHandler ops) = true /\
     snd (h_get_ack (fst (run newHandler ops)) rph_Enc1RTT now false) = Some f /\ aRanges f = [] /\
     validateAckRanges (aRanges f) = false.
-Proof. exact ack_nonempty_refuted. Qed.
-Print Assumptions C07_ack_nonempty_refuted.
+Proof. exact ack_nonempty_needs_discipline. Qed.
+Print Assumptions C07_ack_nonempty_needs_discipline.
 
 (** (c) Every number that was passed to ReceivedPacket is flagged by IsPotentiallyDuplicate and
     refused by ReceivedPacket, after every history of calls, unless it is at or below the highest
@@ -205,9 +226,10 @@ Example C07_example :
   aAckQueued (hApp (fst (run newHandler ops))) = true /\
   option_map aRanges (snd (h_get_ack (fst (run newHandler ops)) rph_Enc1RTT 3000000 true)) = Some [(3, 3); (1, 1)] /\
   accepted (trace newHandler ops) 2 3 /\
-  In (Ignore 1, ROk) (trace newHandler ops).
+  In (Ignore 1, ROk) (trace newHandler ops) /\
+  owes (trace newHandler ops) = false.
 Proof.
-  cbv zeta. split; [| split; [| split; [| split; [| split]]]]; try (vm_compute; reflexivity).
+  cbv zeta. split; [| split; [| split; [| split; [| split; [| split]]]]]; try (vm_compute; reflexivity).
   - intros pn ecn lvl t ae [H | [H | [H | []]]]; inversion H; vm_compute; discriminate.
   - exists 1, rph_Enc1RTT, 2000000, true. split; [vm_compute; tauto | reflexivity].
   - vm_compute. tauto.
